@@ -116,3 +116,52 @@ Lemma witness2 :
   | _ => False
   end.
 Proof. vm_compute. repeat split; reflexivity. Qed.
+
+(** A federation with the plain (non-federated) object: A.l : [Leaf] on s2 (reached through a hop from s1),
+    Query.lf : Leaf on s1; both services registered Leaf (val, tag); no _federation on it, no key. *)
+Definition wg3 : gschema :=
+  mk_gschema ["A"; "Leaf"; "Query"] []
+    [("A", "id", RScalar, ["s1"; "s2"]); ("A", "_federation", RObj "A", ["s1"; "s2"]);
+     ("A", "x", RScalar, ["s1"]); ("A", "l", RObj "Leaf", ["s2"]);
+     ("Leaf", "tag", RScalar, ["s1"; "s2"]); ("Leaf", "val", RScalar, ["s1"; "s2"]);
+     ("Query", "a", RObj "A", ["s1"]); ("Query", "lf", RObj "Leaf", ["s1"]);
+     ("Query", "_federation", RObj "Federation", ["s1"; "s2"])]
+    [("A", "s1", ["id"]); ("A", "s2", ["id"])] [] ["A"].
+
+Definition calls3 : list (string * Z * string * string * aval) :=
+  [("Query", 0%Z, "a", "", AList [ARef "A" 1%Z; ANull; ARef "A" 2%Z]);
+   ("Query", 0%Z, "lf", "", ALeaf 7%Z "seven");
+   ("A", 1%Z, "x", "", AScalar (JNum 11%Z)); ("A", 1%Z, "l", "", AList [ALeaf 1%Z "one"; ANull; ALeaf 2%Z "two"]);
+   ("A", 2%Z, "l", "", ANull)].
+
+(** { lf { v: val  tag  v: val  ... on Leaf { __typename } }  a { x  l { val  w: tag } l { tag @skip(if: true)  val } } } *)
+Definition q3 : list node :=
+  [NField "lf" "lf" (JObj []) "" [] true
+     [NField "v" "val" (JObj []) "" [] false []; fld "tag" []; NField "v" "val" (JObj []) "" [] false [];
+      NFrag "Leaf" [] [fld "__typename" []]];
+   NField "a" "a" (JObj []) "" [] true
+     [fld "x" [];
+      NField "l" "l" (JObj []) "" [] true [fld "val" []; NField "w" "tag" (JObj []) "" [] false []];
+      NField "l" "l" (JObj []) "" [] true [NField "tag" "tag" (JObj []) "" [("skip", true)] false []; fld "val" []]]].
+
+Definition ans3 : json :=
+  JObj [("a", JArr [JObj [("__key", JNum 1%Z);
+                          ("l", JArr [JObj [("val", JNum 1%Z); ("w", JStr "one")]; JNull; JObj [("val", JNum 2%Z); ("w", JStr "two")]]);
+                          ("x", JNum 11%Z)];
+                    JNull;
+                    JObj [("__key", JNum 2%Z); ("l", JNull); ("x", JNull)]]);
+        ("lf", JObj [("__typename", JStr "Leaf"); ("tag", JStr "seven"); ("v", JNum 7%Z)])].
+
+Lemma witness3 :
+  premises wg3 calls3 pick1 q3 = true /\ fed_ok wg3 = true /\ plain_ok wg3 = true /\
+  option_map norm (fed_exec (world_of calls3 []) wg3 pick1 false true q3) = Some ans3 /\
+  option_map norm (eval_ref (world_of calls3 []) wg3 true (2 * depth_list q3 + 4) "Query" 0%Z q3) = Some ans3 /\
+  match flatten (2 * depth_list q3 + 4) false wg3 (RObj "Query") (Some q3) with
+  | Some (Some flat) =>
+      match plan_root wg3 pick1 (2 * (2 * depth_list q3 + 4) + 2) flat with
+      | Some (Plan _ _ _ _ [Plan _ "s1" _ _ [Plan _ "s2" "A" [NField "l" "l" _ _ _ true [_; _]] []]]) => True  (* the hop to s2 carries the leaf selections *)
+      | _ => False
+      end
+  | _ => False
+  end.
+Proof. vm_compute. repeat split; reflexivity. Qed.
